@@ -180,10 +180,14 @@ class Gen:
   def VarsOf(self, env, t):
     return [v for v, vt in env.items() if vt == t]
 
-  def Expr(self, t, env, depth=0, allow_pcall=True):
+  def Expr(self, t, env, depth=0, allow_pcall=True, allow_tie=False):
     """An expression of type t over the bound variables env."""
     r, p = self.rng, self.p
     vs = self.VarsOf(env, t)
+    if allow_tie and t in ('n', 's') and self.VarsOf(env, ('tie', t)) and (
+        r.random() < 0.5):
+      self.features.add('tie_value_output')
+      return Var(r.choice(self.VarsOf(env, ('tie', t))))
     if t in ('n', 's'):
       choices = []
       if vs:
@@ -495,7 +499,9 @@ class Gen:
       self.features.add('argminmax')
       a = self.Expr(t, sub_env, 1, False)
       val = Var(r.choice(self.VarsOf(sub_env, 'n')))
-      return AggE(op, Op('->', a, val), body), t
+      # the chosen argument is not unique when values tie: the result may be
+      # output but never joined / compared (type ('tie', t))
+      return AggE(op, Op('->', a, val), body), ('tie', t)
     op = r.choice(p['agg_ops_n'] if t == 'n' else p['agg_ops_s'])
     e = self.Expr(t, sub_env, 1, False)
     agg = AggE(op, e, body)
@@ -662,7 +668,7 @@ class Gen:
             e = self.Expr(bt, env, 1, False)
           head.append((f, e, op))
         else:
-          head.append((f, self.Expr(t, env, 0), ''))
+          head.append((f, self.Expr(t, env, 0, allow_tie=True), ''))
       rule = Rule(head, body, distinct)
       if r.random() < p['p_named_shuffle']:
         named = [f for f, _ in fields if not IsPositional(f) and
